@@ -3,6 +3,7 @@ import ast, itertools, math, os
 import numpy as np, scipy.sparse as sp
 from vp.coqrun import fl, clist, parse_zlist
 from vp.common import REPO
+from vp import link
 import umap, umap.sparse as S, umap.distances as D
 
 RTOL, ATOL = 1e-5, 1e-6
@@ -28,6 +29,20 @@ MODEL_NEED_N = {"hamming", "matching", "kulsinski", "rogerstanimoto", "russellra
 NONNEG_ONLY = {"hellinger", "ll_dirichlet"}
 SKLEARN_SPARSE = ("euclidean", "manhattan", "cosine")     # sklearn.pairwise_distances accepts these for CSR input (exact path)
 BINARY_KEYS = ["hamming", "jaccard", "dice", "matching", "kulsinski", "rogerstanimoto", "russellrao", "sokalmichener", "sokalsneath"]
+
+
+# ---- translation tie (LINKING.md): functions of umap/sparse.py whose CURRENT text is translated to Gallina (py2coq) and proved
+# equal to the model of M_sparse.v for all inputs (coq/link/L_sparse.v); function -> theorem
+LINKED = {f: "src_%s_eq" % f for f in link.MODULES["sparse"]["functions"]}
+NOT_TRANSLATED = {
+    "arr_unique / arr_union / arr_intersect": "np.sort / np.concatenate / boolean-mask indexing are outside the py2coq subset: they are opaque function "
+                                              "parameters of the translated kernels (the theorems hold for every function returning a long enough buffer / "
+                                              "of the model's length); the real helpers are compared with the model's merges on every run (verdict_index)",
+    "sparse_russellrao": "np.all(ind1 == ind2) (array comparison) outside the py2coq subset",
+    "sparse_cosine": "calls umap.utils.norm (cross-module call) outside the py2coq subset",
+    "sparse_correlation": "set(...) / `not in` outside the py2coq subset",
+    "sparse_ll_dirichlet": "no closed model; `for d in data` and log_beta's data-dependent range outside the py2coq subset",
+}
 
 
 # ---- source tie ------------------------------------------------------------------------------------
@@ -363,6 +378,8 @@ def fit_class(metric, X):
 # ---- main --------------------------------------------------------------------------------------------
 def run(ctx):
     ctx.check_proofs(["prop/P_C13.v"])
+    # translation tie: Gallina regenerated from the current umap/sparse.py; link theorems src_f = (model value, ok = true) re-checked
+    link.check(ctx, "sparse", LINKED, NOT_TRANSLATED)
     rng = ctx.rng
     npr = np.random.RandomState(rng.randrange(2 ** 31))
     # (1) registries of the current source
